@@ -379,6 +379,29 @@ static std::vector<Job> jobs() {
     return v;
 }
 
+// ---- the width-limited integer every sub-byte / odd-width setter takes: small_uint<n>(v) is where "too large is rejected, not truncated"
+// is decided, for every width (the setters' parameter type makes an over-range value unrepresentable, so the sweep above cannot pass one).
+// Every n in 1..63: exhaustive over the representation type when it has <= 16 bits, boundary / single-bit / lane patterns above.
+template <size_t n> static void small_uint_case() {
+    typedef typename small_uint<n>::repr_type Rep;
+    const int rbits = (int)sizeof(Rep) * 8;
+    const uint64_t mx = (1ull << n) - 1, rmax = rbits >= 64 ? ~0ull : ((1ull << rbits) - 1);
+    auto probe = [&](uint64_t v) {
+        if (v > rmax) return;
+        bool threw = false; uint64_t got = 0;
+        try { small_uint<n> x((Rep)v); got = (uint64_t)(Rep)x; } catch (std::exception& e_) { if (!mc::tins_exc(e_)) throw; threw = true; }
+        R.count("small_uint_values");
+        if (v <= mx) { if (threw || got != v) R.violation("field:small-uint:in-range-value-lost:" + std::to_string(n), "small_uint<" + std::to_string(n) + ">(" + std::to_string(v) + ") " + (threw ? "throws" : "holds " + std::to_string(got)), "field=small_uint width=" + std::to_string(n)); }
+        else if (!threw) R.violation("field:small-uint:over-range-accepted:" + std::to_string(n), "small_uint<" + std::to_string(n) + ">(" + std::to_string(v) + ") is accepted and holds " + std::to_string(got) + " (maximum " + std::to_string(mx) + ")", "field=small_uint width=" + std::to_string(n));
+    };
+    if (rbits <= 16) { for (uint64_t v = 0; v <= rmax; ++v) probe(v); return; }
+    probe(0); probe(1); probe(mx); probe(mx - 1); probe(mx + 1); probe(mx + 2); probe(rmax); probe(rmax - 1); probe(mx / 3); probe(mx / 3 * 2);
+    for (int b = 0; b < rbits; ++b) { probe(1ull << b); probe((1ull << b) | 1); probe(mx | (1ull << b)); probe((mx >> 1) + (1ull << b)); probe(rmax ^ (1ull << b)); }
+    for (int lane = 0; lane < rbits / 8; ++lane) { probe(0xffull << (8 * lane)); probe(0x80ull << (8 * lane)); probe(0x01ull << (8 * lane)); }
+}
+template <size_t n> struct SmallUints { static void run() { SmallUints<n - 1>::run(); small_uint_case<n>(); } };
+template <> struct SmallUints<0> { static void run() {} };
+
 int main(int argc, char** argv) {
     const int NJ = 64;
     return run_main(argc, argv, NJ, NJ,
@@ -386,6 +409,7 @@ int main(int argc, char** argv) {
             auto js = jobs();
             uint64_t idx = 0;
             if (job == 0) R.count("field_pairs_in_table", js.size());
+            if (job == NJ - 1) { SmallUints<63>::run(); R.count("small_uint_widths", 63); }
             for (size_t i = job; i < js.size(); i += NJ) {
                 js[i].fn(A.thorough(), idx);
                 if (deadline_reached()) { R.flags["exhaustive"] = false; break; }
@@ -404,6 +428,7 @@ int main(int argc, char** argv) {
         [&](const std::string& kase) -> int {
             auto kv = parse_kv(kase);
             uint64_t idx = 0;
+            if (kv["field"] == "small_uint") SmallUints<63>::run();
             for (auto& j : jobs()) if (j.key == kv["field"]) j.fn(true, idx);
             for (auto& v : R.violations) { printf("violation reproduced: %s | %s | %s\n", v.first.c_str(), v.second.detail.c_str(), v.second.kase.c_str()); return 1; }
             printf("no violation for field %s\n", kv["field"].c_str());
